@@ -39,10 +39,10 @@ func VerifC20_v1_join() {
 		if nocopy {
 			vPark(released, struct{}{})
 		} else {
-			vTouchW(s)
+			vTouchW(s[:cap(s)]) // modifying includes appending into the spare capacity of the slice the consumer owns
 			kept = append(kept, s)
 			for _, k := range kept {
-				vTouchW(k) // an old slice is modified while the discipline keeps working
+				vTouchW(k[:cap(k)]) // an old slice is modified while the discipline keeps working
 			}
 		}
 		vRole("goroutine0")
@@ -79,7 +79,7 @@ func VerifC20_v1_join() {
 	for s := range d.Output() {
 		vTouchR(s)
 		if !nocopy {
-			vTouchW(s)
+			vTouchW(s[:cap(s)]) // modifying includes appending into the spare capacity of the slice the consumer owns
 		}
 		kept = append(kept, s)
 	}
@@ -88,7 +88,7 @@ func VerifC20_v1_join() {
 	}
 	if !nocopy {
 		for _, k := range kept {
-			vTouchW(k)
+			vTouchW(k[:cap(k)])
 		}
 	}
 	vCheckRaces()
